@@ -34,6 +34,7 @@ def hex_specs(n):
     spec('swap', 'hex.swap {n}, a, b', [ft], lambda v: ({'a': v['b'], 'b': v['a']}, ft), AB, 'hex1, hex2 = hex2, hex1')
     spec('swap_self', 'hex.swap {n}, a, a', [ft], lambda v: ({}, ft), A, 'safe if they are the exact same address')
     # ---- logic
+    spec('xor_self', 'hex.xor {n}, a, a', [ft], lambda v: ({'a': 0}, ft), A, 'dst ^= dst')
     spec('xor', 'hex.xor {n}, a, b', [ft], lambda v: ({'a': v['a'] ^ v['b']}, ft), AB, 'dst[:n] ^= src[:n]')
     spec('xor_zero', 'hex.xor_zero {n}, a, b', [ft], lambda v: ({'a': v['a'] ^ v['b'], 'b': 0}, ft), AB, 'dst ^= src; src = 0')
     spec('or', 'hex.or {n}, a, b', [ft], lambda v: ({'a': v['a'] | v['b']}, ft), AB, 'dst[:n] |= src[:n]')
@@ -186,6 +187,10 @@ def bit_specs(n):
     spec('mov', 'bit.mov {n}, a, b', [ft], lambda v: ({'a': v['b']}, ft), AB, 'dst[:n] = src[:n]')
     spec('mov_self', 'bit.mov {n}, a, a', [ft], lambda v: ({}, ft), A, 'dst = dst')
     spec('swap', 'bit.swap {n}, a, b', [ft], lambda v: ({'a': v['b'], 'b': v['a']}, ft), AB, 'a, b = b, a')
+    spec('swap_self', 'bit.swap {n}, a, a', [ft], lambda v: ({}, ft), A, 'a, a = a, a (in-place reversals swap the middle element with itself)')
+    spec('xor_self', 'bit.xor {n}, a, a', [ft], lambda v: ({'a': 0}, ft), A, 'dst ^= dst (the stl zeroes a bit this way)')
+    # (bit.sub n, a, a does not give 0 on the unchanged library - it negates src in place around an add: not enumerated)
+    spec('cmp_self', 'bit.cmp {n}, a, a, {x[lt]}, {x[eq]}, {x[gt]}', ['ft', 'lt', 'eq', 'gt'], lambda v: ({}, 'eq'), A, 'compares a to itself')
     spec('xor', 'bit.xor {n}, a, b', [ft], lambda v: ({'a': v['a'] ^ v['b']}, ft), AB, 'dst[:n] ^= src[:n]')
     spec('xor_zero', 'bit.xor_zero {n}, a, b', [ft], lambda v: ({'a': v['a'] ^ v['b'], 'b': 0}, ft), AB, 'dst ^= src; src = 0')
     spec('or', 'bit.or {n}, a, b', [ft], lambda v: ({'a': v['a'] | v['b']}, ft), AB, 'dst[:n] |= src[:n]')
